@@ -13,7 +13,7 @@ import (
 
 var impModes = []string{"dot", "named", "renamed", "dot+seq", "named+seqrenamed"}
 var impDecls = []string{"func", "method", "generic", "genericmethod", "litassigned", "litcalled", "nestedlit", "litinclosure"}
-var impElems = []string{"int", "string", "struct", "pointer", "func", "any", "slice", "iter"}
+var impElems = []string{"int", "string", "struct", "pointer", "func", "any", "slice", "iter", "cmtstring"}
 var impRets = []string{"nil", "named"}
 var impCalls = []string{"plain", "inst"} // API calls with inferred / explicitly written type arguments
 var impBase = []string{"dot", "func", "int", "nil", "plain"}
@@ -50,6 +50,8 @@ func (p impProg) text(id string) string {
 		T, v1, v2 = "int", "c.V(1)", "c.V(2)"
 	case "string":
 		T, v1, v2 = "string", `fmt.Sprint("s", c.V(1))`, `"t"`
+	case "cmtstring": // comment delimiters inside string literals and a block comment: the literal's source is attached as a comment
+		T, v1, v2 = "string", `fmt.Sprint("*/", c.V(1)) /* block */`, `"/*" + "//"`
 	case "struct":
 		T, v1, v2 = id+"_S", id+"_S{c.V(1)}", id+"_S{2}"
 		pre = fmt.Sprintf("type %s_S struct{ a int }\n\n", id)
@@ -169,7 +171,15 @@ func bystanderFamily(tier string) *FamilySpec {
 	// processed earlier in the same run (file names sort): per-file state of the compiler must not leak
 	fs.Template.SFiles["a_lit.go"] = `package src
 
-import . "github.com/goghcrow/go-co"
+import (
+	"io"
+
+	. "github.com/goghcrow/go-co"
+)
+
+// ARead: the only mention of package io in this file (the first one visited) sits in an eta-shaped
+// closure whose callee lives in another processed file
+var ARead = func(r io.Reader) int { return P8506_count(r) }
 
 // ALit holds a generator literal
 var ALit = func() Iter[int] {
